@@ -84,140 +84,169 @@ Definition bind {A B} (x : out A) (f : A -> mst -> option Z -> out B) : out B :=
 
 Definition slen (s : mst) : Z := Z.of_nat (length (m_slots s)).
 
+(* Expressions and blocks are interpreted by structural recursion on the program; only
+   self-calls (self.len(), self.next(), ...) go through [self_call], whose depth is bounded
+   separately (call_depth below). *)
 Section Interp.
+  Variable self_call : string -> mst -> option Z -> out val.
+
+  Fixpoint eval (en : env) (e : expr) (s : mst) (b : option Z) {struct e} : out val :=
+    let ev2 (x y : expr) (k : Z -> Z -> mst -> option Z -> out val) : out val :=
+        bind (eval en x s b) (fun vx s1 b1 =>
+        bind (eval en y s1 b1) (fun vy s2 b2 =>
+        match vx, vy with VInt p, VInt q => k p q s2 b2 | _, _ => ub s2 b2 end)) in
+    match e with
+    | EInt z => ret (VInt z) s b
+    | ELenN => ret (VInt (slen s)) s b
+    | EVar x => match lookup x en with Some v => ret v s b | None => ub s b end
+    | EFld f => ret (VInt (getf f s)) s b
+    | EAdd x y => ev2 x y (fun p q s2 b2 => if p + q <? two64 then ret (VInt (p + q)) s2 b2 else ub s2 b2)
+    | ESub x y => ev2 x y (fun p q s2 b2 => if q <=? p then ret (VInt (p - q)) s2 b2 else ub s2 b2)
+    | EMin x y => ev2 x y (fun p q s2 b2 => ret (VInt (Z.min p q)) s2 b2)
+    | ELt x y => ev2 x y (fun p q s2 b2 => ret (VBool (p <? q)) s2 b2)
+    | EEq x y => ev2 x y (fun p q s2 b2 => ret (VBool (p =? q)) s2 b2)
+    | ESome x => bind (eval en x s b) (fun v s1 b1 => ret (VSome v) s1 b1)
+    | ENone => ret VNone s b
+    | EPair x y =>
+      bind (eval en x s b) (fun vx s1 b1 =>
+      bind (eval en y s1 b1) (fun vy s2 b2 => ret (VPair vx vy) s2 b2))
+    | EReadAt x =>
+      bind (eval en x s b) (fun v s1 b1 =>
+      match v with
+      | VInt i =>
+        if (0 <=? i) && (i <? slen s1) then
+          match nth_error (m_slots s1) (Z.to_nat i) with
+          | Some id => (MRet (VId id), s1, b1, [EMove id])
+          | None => ub s1 b1
+          end
+        else ub s1 b1
+      | _ => ub s1 b1
+      end)
+    | ERange lo hi =>
+      bind (match lo with Some x => eval en x s b | None => ret (VInt 0) s b end) (fun vlo s1 b1 =>
+      bind (match hi with Some x => eval en x s1 b1 | None => ret (VInt (slen s1)) s1 b1 end)
+           (fun vhi s2 b2 =>
+      match vlo, vhi with
+      | VInt p, VInt q =>
+        if (0 <=? p) && (p <=? q) && (q <=? slen s2) then ret (VSlice p q) s2 b2 else ub s2 b2
+      | _, _ => ub s2 b2
+      end))
+    | ESelfCall m => self_call m s b
+    end.
+
+  Definition upd_field (f : fld) (op : Z -> Z -> option Z) (v : val)
+             (k : mst -> option Z -> out (option val)) (s1 : mst) (b1 : option Z) : out (option val) :=
+    match v with
+    | VInt q => match op (getf f s1) q with
+                | Some r => k (setf f r s1) b1
+                | None => ub s1 b1
+                end
+    | _ => ub s1 b1
+    end.
+
+  (* statements: [k] runs the rest of the enclosing block (with the environment extended by
+     the lets seen so far); a block yields Some v as soon as a tail expression is reached *)
+  Definition kont : Type := env -> mst -> option Z -> out (option val).
+
+  Fixpoint exec_stmt (st : stmt) (en : env) (k : kont) (s : mst) (b : option Z) {struct st}
+    : out (option val) :=
+    match st with
+    | SLet x e => bind (eval en e s b) (fun v s1 b1 => k ((x, v) :: en) s1 b1)
+    | SSet f e => bind (eval en e s b) (fun v => upd_field f (fun _ q => Some q) v (k en))
+    | SAddTo f e =>
+      bind (eval en e s b)
+           (fun v => upd_field f (fun p q => if p + q <? two64 then Some (p + q) else None) v (k en))
+    | SSubFrom f e =>
+      bind (eval en e s b)
+           (fun v => upd_field f (fun p q => if q <=? p then Some (p - q) else None) v (k en))
+    | SDropInPlace e =>
+      bind (eval en e s b) (fun v s1 b1 =>
+      match v with
+      | VSlice p q =>
+        let '(fired, b2, evs) := drop_list b1 (range (Z.to_nat p) (Z.to_nat q) (m_slots s1)) in
+        if fired then (MPanic, s1, b2, evs)
+        else bind (MRet tt, s1, b2, evs) (fun _ s2 b3 => k en s2 b3)
+      | _ => ub s1 b1
+      end)
+    | SIf c t e =>
+      let blk := fix blk (l : list stmt) (en0 : env) : mst -> option Z -> out (option val) :=
+                   match l with
+                   | [] => ret None
+                   | x :: r => exec_stmt x en0 (fun en1 => blk r en1)
+                   end in
+      bind (eval en c s b) (fun v s1 b1 =>
+      match v with
+      | VBool cb =>
+        bind (if cb then blk t en s1 b1 else blk e en s1 b1) (fun r s2 b2 =>
+        match r with
+        | Some v => ret (Some v) s2 b2
+        | None => k en s2 b2
+        end)
+      | _ => ub s1 b1
+      end)
+    | SRet e => bind (eval en e s b) (fun v s1 b1 => ret (Some v) s1 b1)
+    end.
+
+  Fixpoint exec (en : env) (body : list stmt) : mst -> option Z -> out (option val) :=
+    match body with
+    | [] => ret None
+    | x :: r => exec_stmt x en (fun en1 => exec en1 r)
+    end.
+End Interp.
+
+Section Calls.
   Variable table : string -> option method.
 
-  (* fuel bounds the depth of self-calls (nth -> next, drop -> as_mut_slice, ...) *)
-  Fixpoint eval (fuel : nat) (en : env) (e : expr) (s : mst) (b : option Z) {struct fuel} : out val :=
-    match fuel with
+  (* self-calls to by-reference methods, nested at most [d] deep *)
+  Fixpoint call_depth (d : nat) (m : string) (s : mst) (b : option Z) : out val :=
+    match d with
     | O => ub s b
-    | S fuel' =>
-      let ev2 (x y : expr) (k : Z -> Z -> mst -> option Z -> out val) : out val :=
-          bind (eval fuel' en x s b) (fun vx s1 b1 =>
-          bind (eval fuel' en y s1 b1) (fun vy s2 b2 =>
-          match vx, vy with VInt p, VInt q => k p q s2 b2 | _, _ => ub s2 b2 end)) in
-      match e with
-      | EInt z => ret (VInt z) s b
-      | ELenN => ret (VInt (slen s)) s b
-      | EVar x => match lookup x en with Some v => ret v s b | None => ub s b end
-      | EFld f => ret (VInt (getf f s)) s b
-      | EAdd x y => ev2 x y (fun p q s2 b2 => if p + q <? two64 then ret (VInt (p + q)) s2 b2 else ub s2 b2)
-      | ESub x y => ev2 x y (fun p q s2 b2 => if q <=? p then ret (VInt (p - q)) s2 b2 else ub s2 b2)
-      | EMin x y => ev2 x y (fun p q s2 b2 => ret (VInt (Z.min p q)) s2 b2)
-      | ELt x y => ev2 x y (fun p q s2 b2 => ret (VBool (p <? q)) s2 b2)
-      | EEq x y => ev2 x y (fun p q s2 b2 => ret (VBool (p =? q)) s2 b2)
-      | ESome x => bind (eval fuel' en x s b) (fun v s1 b1 => ret (VSome v) s1 b1)
-      | ENone => ret VNone s b
-      | EPair x y =>
-        bind (eval fuel' en x s b) (fun vx s1 b1 =>
-        bind (eval fuel' en y s1 b1) (fun vy s2 b2 => ret (VPair vx vy) s2 b2))
-      | EReadAt x =>
-        bind (eval fuel' en x s b) (fun v s1 b1 =>
-        match v with
-        | VInt i =>
-          if (0 <=? i) && (i <? slen s1) then
-            match nth_error (m_slots s1) (Z.to_nat i) with
-            | Some id => (MRet (VId id), s1, b1, [EMove id])
-            | None => ub s1 b1
-            end
-          else ub s1 b1
-        | _ => ub s1 b1
-        end)
-      | ERange lo hi =>
-        let bound (o : option expr) (dflt : Z) (s0 : mst) (b0 : option Z) : out val :=
-            match o with Some x => eval fuel' en x s0 b0 | None => ret (VInt dflt) s0 b0 end in
-        bind (bound lo 0 s b) (fun vlo s1 b1 =>
-        bind (bound hi (slen s1) s1 b1) (fun vhi s2 b2 =>
-        match vlo, vhi with
-        | VInt p, VInt q =>
-          if (0 <=? p) && (p <=? q) && (q <=? slen s2) then ret (VSlice p q) s2 b2 else ub s2 b2
-        | _, _ => ub s2 b2
-        end))
-      | ESelfCall m =>
-        match table m with
-        | Some me =>
-          match m_self me with
-          | ByValue => ub s b
-          | _ => bind (exec fuel' [] (m_body me) s b)
-                      (fun r s1 b1 => ret (match r with Some v => v | None => VUnit end) s1 b1)
-          end
-        | None => ub s b
+    | S d' =>
+      match table m with
+      | Some me =>
+        match m_self me with
+        | ByValue => ub s b
+        | _ => bind (exec (call_depth d') [] (m_body me) s b)
+                    (fun r s1 b1 => ret (match r with Some v => v | None => VUnit end) s1 b1)
         end
-      end
-    end
-  with exec (fuel : nat) (en : env) (body : list stmt) (s : mst) (b : option Z) {struct fuel}
-       : out (option val) :=
-    match fuel with
-    | O => ub s b
-    | S fuel' =>
-      match body with
-      | [] => ret None s b
-      | st :: rest =>
-        let upd_f (f : fld) (x : expr) (op : Z -> Z -> option Z) : out (option val) :=
-            bind (eval fuel' en x s b) (fun v s1 b1 =>
-            match v with
-            | VInt q => match op (getf f s1) q with
-                        | Some r => exec fuel' en rest (setf f r s1) b1
-                        | None => ub s1 b1
-                        end
-            | _ => ub s1 b1
-            end) in
-        match st with
-        | SLet x e => bind (eval fuel' en e s b) (fun v s1 b1 => exec fuel' ((x, v) :: en) rest s1 b1)
-        | SSet f e => upd_f f e (fun _ q => Some q)
-        | SAddTo f e => upd_f f e (fun p q => if p + q <? two64 then Some (p + q) else None)
-        | SSubFrom f e => upd_f f e (fun p q => if q <=? p then Some (p - q) else None)
-        | SDropInPlace e =>
-          bind (eval fuel' en e s b) (fun v s1 b1 =>
-          match v with
-          | VSlice p q =>
-            let '(fired, b2, evs) := drop_list b1 (range (Z.to_nat p) (Z.to_nat q) (m_slots s1)) in
-            if fired then (MPanic, s1, b2, evs)
-            else bind (MRet tt, s1, b2, evs) (fun _ s2 b3 => exec fuel' en rest s2 b3)
-          | _ => ub s1 b1
-          end)
-        | SIf c t e =>
-          bind (eval fuel' en c s b) (fun v s1 b1 =>
-          match v with
-          | VBool cb =>
-            bind (exec fuel' en (if cb then t else e) s1 b1) (fun r s2 b2 =>
-            match r with
-            | Some v => ret (Some v) s2 b2
-            | None => exec fuel' en rest s2 b2
-            end)
-          | _ => ub s1 b1
-          end)
-        | SRet e => bind (eval fuel' en e s b) (fun v s1 b1 => ret (Some v) s1 b1)
-        end
+      | None => ub s b
       end
     end.
 
   (* calling a method from outside: by-value receivers are dropped when the body is done
      (Drop::drop = the method named "drop"); a value already computed is abandoned if that
      drop panics *)
-  Definition call (fuel : nat) (m : string) (args : list val) (s : mst) (b : option Z) : out val :=
+  (* what the body moved out towards the caller is abandoned (leaked) if the function
+     does not return normally *)
+  Definition abandon (e : list ev) : list ev :=
+    map (fun x => match x with EMove y => ELeak y | o => o end) e.
+
+  Definition call (d : nat) (m : string) (args : list val) (s : mst) (b : option Z) : out val :=
     match table m with
     | None => ub s b
     | Some me =>
       let en := combine (m_params me) args in
-      bind (exec fuel en (m_body me) s b) (fun r s1 b1 =>
-      let v := match r with Some v => v | None => VUnit end in
-      match m_self me with
-      | ByValue =>
-        match table "drop"%string with
-        | Some d =>
-          match exec fuel [] (m_body d) s1 b1 with
-          | (MRet _, s2, b2, e2) => (MRet v, s2, b2, e2)
-          | (MPanic, s2, b2, e2) =>
-            (MPanic, s2, b2, match v with VSome (VId x) => [ELeak x] | _ => [] end ++ e2)
-          | (MUB, s2, b2, e2) => (MUB, s2, b2, e2)
+      match exec (call_depth d) en (m_body me) s b with
+      | (MRet r, s1, b1, e1) =>
+        let v := match r with Some v => v | None => VUnit end in
+        match m_self me with
+        | ByValue =>
+          match table "drop"%string with
+          | Some dm =>
+            match exec (call_depth d) [] (m_body dm) s1 b1 with
+            | (MRet _, s2, b2, e2) => (MRet v, s2, b2, e1 ++ e2)
+            | (MPanic, s2, b2, e2) => (MPanic, s2, b2, abandon e1 ++ e2)
+            | (MUB, s2, b2, e2) => (MUB, s2, b2, e1 ++ e2)
+            end
+          | None => (MRet v, s1, b1, e1)
           end
-        | None => ret v s1 b1
+        | _ => (MRet v, s1, b1, e1)
         end
-      | _ => ret v s1 b1
-      end)
+      | (MPanic, s1, b1, e1) => (MPanic, s1, b1, e1)
+      | (MUB, s1, b1, e1) => (MUB, s1, b1, e1)
+      end
     end.
-End Interp.
+End Calls.
 
 (* the hub's iterator state as a receiver *)
 Definition embed (s : it) : mst :=
